@@ -54,12 +54,17 @@ def run(p, report, tier):
     for modname in (MOD, "skactiveml.utils._label_encoder"):
         m = p.modules[modname]
         for n in ast.walk(m.tree):
-            if isinstance(n, ast.Assign) and any(x in ast.unparse(n.value) for x in ("missing_label",)) and any(
-                    "dtype" in ast.unparse(t) or "target_type" in ast.unparse(t) for t in n.targets):
-                v = n.value
-                ok = isinstance(v, ast.Attribute) and v.attr == "dtype" and isinstance(v.value, ast.Call) \
-                    and c01.callname(v.value) in ("append", "concatenate", "hstack", "array", "asarray") \
-                    and any("missing_label" in ast.unparse(a) for a in v.value.args)
+            if not isinstance(n, ast.Assign):
+                continue
+            v = n.value
+            # role: a dtype computed from labels AND sentinel together
+            is_dtype_of_call = isinstance(v, ast.Attribute) and v.attr == "dtype" and isinstance(v.value, ast.Call) \
+                and any("missing_label" in ast.unparse(a) for a in v.value.args)
+            is_type_arith = isinstance(v, ast.Call) and c01.callname(v) in (
+                "result_type", "promote_types", "find_common_type", "common_type", "min_scalar_type") \
+                and "missing_label" in ast.unparse(v)
+            if is_dtype_of_call or is_type_arith:
+                ok = is_dtype_of_call and c01.callname(v.value) in ("append", "concatenate", "hstack", "array", "asarray")
                 n_dt += 1
                 report.add("R16.5", modname.split(".")[-1], f"common dtype `{norm_stmt(n, 80)}`", f"{m.relpath}:{n.lineno}", ok,
                            detail="np.append(labels, sentinel).dtype" if ok else
